@@ -161,7 +161,6 @@ fn blob_any() -> BoxedStrategy<Blob> {
 
 fn test_roundtrip(c: &PairList) -> TestResult {
     let mut out: Vec<u8> = vec![0x77; c.prefill as usize];
-    let mut reference = out.clone();
     let pairs: Vec<(Vec<u8>, Vec<u8>)> = c.pairs.iter().map(|(n, v)| (n.bytes(), v.bytes())).collect();
     for (n, v) in &pairs {
         let before = out.len();
@@ -169,9 +168,14 @@ fn test_roundtrip(c: &PairList) -> TestResult {
             Ok(w) => vensure!(w == out.len() - before, "c16-write-count", "write reported {w} bytes but appended {}", out.len() - before),
             Err(e) => vfail!("c16-write-error", "write of a ({}, {})-byte pair failed: {e}", n.len(), v.len()),
         }
-        wire::enc_pair(n, v, &mut reference);
     }
-    vensure!(out == reference, "c16-encoding", "encoder output differs from the reference encoding (first difference at byte {:?})", out.iter().zip(&reference).position(|(a, b)| a != b));
+    // The statement fixes what the encoding must decode to, not its bytes (a length below 128 may
+    // legally be sent in the 4-byte form): decode with the harness's own decoder.
+    {
+        vensure!(out[..c.prefill as usize].iter().all(|b| *b == 0x77), "c16-encoding", "encoder changed bytes that were in the destination before");
+        let (dec, used) = wire::dec_pairs_owned(&out[c.prefill as usize..]);
+        vensure!(used == out.len() - c.prefill as usize && dec.len() == pairs.len() && dec.iter().zip(pairs.iter()).all(|(d, p)| d.0 == p.0 && d.1 == p.1), "c16-encoding", "encoder output does not decode (reference decoder) to the pairs written: {} pairs / {} of {} bytes", dec.len(), used, out.len() - c.prefill as usize);
+    }
     let enc = &out[c.prefill as usize..];
     // decode: exactly those pairs, nothing left over
     let mut it = NVIter::new(enc);
@@ -312,12 +316,17 @@ fn test_oversize(c: &Oversize) -> TestResult {
     match nv::write((n, v), &mut sink) {
         Ok(w) => {
             vensure!(legal, "c16-oversize-accepted", "write accepted a pair with lengths ({}, {})", c.name_len, c.value_len);
-            let exp = c.name_len + c.value_len + if c.name_len < 128 { 1 } else { 4 } + if c.value_len < 128 { 1 } else { 4 };
-            vensure!(w as u64 == exp && sink.0 == exp, "c16-write-count", "write returned {w}, sink received {}, expected {exp}", sink.0);
-            let mut head = Vec::new();
-            wire::enc_varint(c.name_len as u32, &mut head);
-            wire::enc_varint(c.value_len as u32, &mut head);
-            vensure!(sink.1[..head.len().min(sink.1.len())] == head[..head.len().min(sink.1.len())] && sink.1.len() >= head.len().min(exp as usize), "c16-encoding", "length prefixes of a ({}, {})-byte pair encoded as {:02x?}, expected {head:02x?}", c.name_len, c.value_len, sink.1);
+            vensure!(w as u64 == sink.0, "c16-write-count", "write returned {w}, sink received {}", sink.0);
+            // the two length prefixes (either form) announce exactly the lengths written
+            let d1 = wire::dec_varint(&sink.1);
+            let d2 = d1.and_then(|(_, k)| wire::dec_varint(&sink.1[k..]).map(|(v, k2)| (v, k + k2)));
+            match (d1, d2) {
+                (Some((nl, _)), Some((vl, hl))) => {
+                    vensure!(nl as u64 == c.name_len && vl as u64 == c.value_len, "c16-encoding", "length prefixes of a ({}, {})-byte pair encoded as {:02x?}", c.name_len, c.value_len, sink.1);
+                    vensure!(sink.0 == hl as u64 + c.name_len + c.value_len, "c16-write-count", "a ({}, {})-byte pair with a {hl}-byte header was written as {} bytes", c.name_len, c.value_len, sink.0);
+                },
+                _ => vfail!("c16-encoding", "length prefixes of a ({}, {})-byte pair do not decode: {:02x?}", c.name_len, c.value_len, sink.1),
+            }
         },
         Err(e) => {
             vensure!(!legal, "c16-write-error", "write rejected legal lengths ({}, {}): {e}", c.name_len, c.value_len);
